@@ -30,13 +30,18 @@ func zzExpPeers(g *zzGen, k int) []netv1.NetworkPolicyPeer {
 		return []netv1.NetworkPolicyPeer{{PodSelector: zzSel("app", "q")}, {NamespaceSelector: zzSel(zzNsNameLabel, "ns2")}}
 	case 8: // a concrete ipBlock
 		return []netv1.NetworkPolicyPeer{{IPBlock: &netv1.IPBlock{CIDR: "10.0.0.0/8"}}}
+	case 10: // namespace selector with label equalities AND an expression; an existing workload (b in ns1) matches the
+		// pod selector and the equality part only: the representative peer must not be refined away
+		return []netv1.NetworkPolicyPeer{{PodSelector: zzSel("app", "b"), NamespaceSelector: &metav1.LabelSelector{
+			MatchLabels:      map[string]string{"env": "prod"},
+			MatchExpressions: []metav1.LabelSelectorRequirement{{Key: "tier", Operator: metav1.LabelSelectorOpNotIn, Values: []string{"restricted"}}}}}}
 	case 9: // single-value In (equivalent to matchLabels) in another namespace set
 		return []netv1.NetworkPolicyPeer{{NamespaceSelector: zzSel("env", "dev"), PodSelector: in("app", "q")}}
 	}
 	return nil // no peers: everything, incl. external
 }
 
-const zzNExpPeers = 10
+const zzNExpPeers = 11
 
 // hypothetical pod H
 type zzHyp struct {
@@ -271,6 +276,84 @@ func ZZ_C06_PolicyInOtherNamespace() {
 		vf_Assert(ok, "exposure-same-pairs")
 		if ok {
 			vf_Assert(zzSameDen(cs, e, x), "exposure-same-connections")
+		}
+	}
+}
+
+
+// C06/C07 with two policies sharing workloads: p1 selects every pod of ns1, p2 only app=a; both expose to the
+// entire cluster on (different, symbolic) TCP ports. Each workload's entries must reflect its own policies.
+func ZZ_C06_C07_TwoPolicies() {
+	g := zzBaseWorld(true, true)
+	ing := vf_Choose("dir", 2) == 0
+	mk := func(name string, sel metav1.LabelSelector, port int32) *netv1.NetworkPolicy {
+		np := zzNetpolObj("ns1", name, netv1.NetworkPolicySpec{PodSelector: sel}).NetworkPolicy
+		peers := []netv1.NetworkPolicyPeer{{NamespaceSelector: &metav1.LabelSelector{}}}
+		ports := []netv1.NetworkPolicyPort{zzPortNum(corev1.ProtocolTCP, port)}
+		if ing {
+			np.Spec.Ingress = []netv1.NetworkPolicyIngressRule{{From: peers, Ports: ports}}
+		} else {
+			np.Spec.Egress = []netv1.NetworkPolicyEgressRule{{To: peers, Ports: ports}}
+			np.Spec.PolicyTypes = []netv1.PolicyType{netv1.PolicyTypeEgress}
+		}
+		return np
+	}
+	x1, x2 := zzPortVar("p1.port"), zzPortVar("p2.port")
+	first := vf_Choose("order", 2)
+	p1 := mk("p1", metav1.LabelSelector{}, x1)
+	p2 := mk("p2", metav1.LabelSelector{MatchLabels: map[string]string{"app": "a"}}, x2)
+	if first == 0 {
+		g.addNP(p1)
+		g.addNP(p2)
+	} else {
+		g.addNP(p2)
+		g.addNP(p1)
+	}
+	x := zzProbeX()
+	ca := NewConnlistAnalyzer(WithMuteErrsAndWarns(), WithExposureAnalysis())
+	_, _, err := ca.connsListFromParsedResources(g.Objs)
+	vf_Assert(err == nil, "exposure-analysis-succeeds")
+	if err != nil {
+		return
+	}
+	w := zzGenHyp(g)
+	h := w.Pods[len(w.Pods)-1]
+	hNs := w.nsLabels(h.Ns)
+	for _, name := range []string{"a", "b"} {
+		var rec ExposedPeer
+		for _, ep := range ca.ExposedPeers() {
+			if ep.ExposedPeer().String() == "ns1/"+name+"[Deployment]" {
+				rec = ep
+			}
+		}
+		vf_Assert(rec != nil, "workload-has-exposure-record")
+		if rec == nil {
+			continue
+		}
+		self := g.pod("ns1", name)
+		entries := rec.IngressExposure()
+		dst, named := self, self
+		if !ing {
+			entries = rec.EgressExposure()
+			dst, named = h, h
+		}
+		for _, proto := range zzProtos3 {
+			_, allowed := w.zzNPDir(self, zzEnd{Pod: h}, ing, proto, x, dst, g.Book)
+			covered := false
+			for _, e := range entries {
+				match := e.IsExposedToEntireCluster()
+				if !match {
+					nsl, pl := e.NamespaceLabels(), e.PodLabels()
+					match = zzSelMatches(&nsl, hNs) && zzSelMatches(&pl, h.Labels)
+				}
+				if !match {
+					continue
+				}
+				c := zzEntryCovers(e.PotentialConnectivity(), proto, x, named)
+				vf_Assert(vf_Implies(c, allowed), "exposure-entry-sound")
+				covered = vf_Or(covered, c)
+			}
+			vf_Assert(vf_Implies(allowed, covered), "exposure-complete")
 		}
 	}
 }
